@@ -168,6 +168,7 @@ package heap
 //@ pure top(h *Heap) *Item = h.pq.queue[0]
 
 //@ func newPriorityQueue
+//@   locals queue: []*github.com/furiko-io/furiko/pkg/utils/heap.Item; names: map[string]int
 //@   params items
 //@   tags C01
 //@   safety nil, index, nilmap-write, alloc
